@@ -759,7 +759,7 @@ package corerad
 
 //@ func NewAdvertiser
 //@   assigns new heap(corerad.Advertiser), brk
-//@   ensures E1 [C20]: result != nil && fresh(result) && result.cfg == cfg && result.cctx == cctx && result.dialer == dialer && result.terminate == terminate
+//@   ensures E1 [C20,C08]: result != nil && fresh(result) && result.cfg == cfg && result.cctx == cctx && result.dialer == dialer && result.terminate == terminate
 //@ func NewMonitor
 //@   assigns new heap(corerad.Monitor), brk
 //@   ensures E1 [C20]: result != nil && fresh(result) && result.iface == iface && result.cctx == cctx && result.dialer == dialer
@@ -769,7 +769,7 @@ package corerad
 //@   requires P1: s != nil && s.cctx != nil && s.cctx.ll != nil && s.t != nil
 //@   requires P2: s.w != nil ==> wfA(s.w.m) && lockGet(ghost.lockDepth, fieldaddr(s.w, "mu")) == 0
 //@   assigns everything
-//@   at call NewAdvertiser(ac, aifi, ad, aw, at) (ar): assert A1 [C20]: aifi == cfg.Interfaces[rangeindex1 + 1] && aifi.Advertise && !setHas(ghost.has, rangeindex1 + 1) && ac == s.cctx ; ghost.has = setAdd(ghost.has, rangeindex1 + 1) ; ghost.n = ghost.n + 1
+//@   at call NewAdvertiser(ac, aifi, ad, aw, at) (ar): assert A1 [C20,C08]: aifi == cfg.Interfaces[rangeindex1 + 1] && aifi.Advertise && !setHas(ghost.has, rangeindex1 + 1) && ac == s.cctx && boundMethod(at, "corerad.terminate", s.t) ; ghost.has = setAdd(ghost.has, rangeindex1 + 1) ; ghost.n = ghost.n + 1
 //@   at call NewMonitor(mc, mname, md, mw, mv) (mr): assert M1 [C20]: mname == cfg.Interfaces[rangeindex1 + 1].Name && !cfg.Interfaces[rangeindex1 + 1].Advertise && cfg.Interfaces[rangeindex1 + 1].Monitor && !setHas(ghost.has, rangeindex1 + 1) && mc == s.cctx ; ghost.has = setAdd(ghost.has, rangeindex1 + 1) ; ghost.n = ghost.n + 1
 //@   loop 1 invariant L1 [C20]: 0 <= rangeindex1 + 1 && rangeindex1 + 1 <= len(cfg.Interfaces) && len(tasks) == ghost.n && s != nil && s.cctx != nil && s.cctx.ll != nil && s.t != nil && (s.w != nil ==> wfA(s.w.m) && lockGet(ghost.lockDepth, fieldaddr(s.w, "mu")) == 0)
 //@   loop 1 invariant L2 [C20]: forall(i, 0, len(cfg.Interfaces), setHas(ghost.has, i) == (i < rangeindex1 + 1 && (cfg.Interfaces[i].Advertise || cfg.Interfaces[i].Monitor)))
